@@ -1,0 +1,17 @@
+//go:build verif
+
+package user
+
+import "crypto/rsa"
+
+// Verification hooks: access to the embedded services key. Add-only; absent without the tag.
+
+// PubKeyVerif returns the key VerifySignature checks against.
+func PubKeyVerif() *rsa.PublicKey { return pubKey }
+
+// SwapPubKeyVerif replaces the key VerifySignature checks against and returns the previous one,
+// so that the harness can exercise the accepting path with a key whose private half it owns.
+func SwapPubKeyVerif(k *rsa.PublicKey) (old *rsa.PublicKey) {
+	old, pubKey = pubKey, k
+	return old
+}
